@@ -7,7 +7,7 @@ from common import hx
 from props.c01 import keys_of
 
 ID = "C02"
-LEAN_IMPORTS = ["PyTrie.Props.C02", "PyTrie.Props.RawLevel", "PyTrie.Props.NonVacuity2", "PyTrie.Props.HistoryBlocks", "PyTrie.Props.NonVacuity9"]
+LEAN_IMPORTS = ["PyTrie.Props.C02", "PyTrie.Props.RawLevel", "PyTrie.Props.NonVacuity2", "PyTrie.Props.HistoryBlocks", "PyTrie.Props.NonVacuity9", "PyTrie.Props.HistoryProgress"]
 THEOREMS = [
     "PyTrie.Props.C01.canon_run",
     "PyTrie.Hex.canon_unique",
@@ -29,6 +29,7 @@ THEOREMS = [
     "PyTrie.Props.Free.history_blocks_root_depends_only_on_contents",
     "PyTrie.Props.NonVacuity9.root_witness",
     "PyTrie.Props.NonVacuity9.flat_tree",
+    "PyTrie.Props.Free.history_blocks_root'",
 ]
 RULE = ("histories as for C01 (4 configurations) with values aimed at the 31/32/33-byte embedding boundary of leaf, "
         "extension and branch encodings; after every operation root_hash and the body stored under it are compared "
